@@ -13,15 +13,40 @@ From TV Require Import Proofs.LexEquivBase Proofs.LexEquivTrivia Proofs.LexEquiv
 From TV Require Proofs.DefsEquivSim.
 Require Import Lia ZifyBool ZifyN ZifyNat.
 
-(* inline tables with plain keys only, hereditarily *)
-Fixpoint simple_inline (a : aval) : bool :=
-  match a with
-  | AArr l => forallb simple_inline l
-  | AInl kvs => forallb (fun pv => Nat.eqb (length (fst pv)) 1 && simple_inline (snd pv)) kvs
-  | _ => true
-  end.
+(* values whose inline tables were written with plain keys only, hereditarily: no inline table
+   that exists because of a dotted key (implicit / dotted flags) *)
+Fixpoint vplain (v : value) : bool :=
+  match v with
+  | VScalar _ _ _ => true
+  | VArray vals _ _ _ _ =>
+    (fix go (l : list item) : bool := match l with [] => true | it :: tl => iplain it && go tl end) vals
+  | VInline items _ im dt _ _ =>
+    negb im && negb dt &&
+    (fix go (l : list (key * item)) : bool := match l with [] => true | (_, it) :: tl => iplain it && go tl end) items
+  end
+with iplain (it : item) : bool := match it with IValue v => vplain v | _ => false end.
 
+Definition items_plain (m : kvs) : bool := forallb (fun kv => iplain (snd kv)) m.
+
+Lemma vplain_array vals tr c d sp : vplain (VArray vals tr c d sp) = forallb iplain vals.
+Proof. cbn [vplain]. induction vals as [|it tl IH]; [reflexivity|]. cbn [forallb]. rewrite <- IH. reflexivity. Qed.
+Lemma vplain_inline items pre im dt d sp : vplain (VInline items pre im dt d sp) = negb im && negb dt && items_plain items.
+Proof.
+  cbn [vplain]. f_equal. unfold items_plain. induction items as [|[k it] tl IH]; [reflexivity|]. cbn [forallb snd]. rewrite <- IH. reflexivity.
+Qed.
+Lemma vplain_decorate v p q : vplain (value_decorate v p q) = vplain v.
+Proof. destruct v; reflexivity. Qed.
+Lemma vplain_apply_raw v sp : vplain (apply_raw v sp) = vplain v.
+Proof. unfold apply_raw. rewrite vplain_decorate. destruct v; reflexivity. Qed.
+
+Definition nonscalar (v : value) : Prop := match v with VScalar _ _ _ => False | _ => True end.
 Definition undot (v : value) : bool := match v with VInline _ _ _ dt _ _ => negb dt | _ => true end.
+
+Lemma vplain_undot v : vplain v = true -> undot v = true.
+Proof.
+  destruct v as [x r d|vals tr c d sp|items pre im dt d sp]; try reflexivity. rewrite vplain_inline. cbn [undot].
+  intro H. apply andb_true_iff in H as [H _]. apply andb_true_iff in H as [_ H]. exact H.
+Qed.
 
 (* ---- tvalue: the nested maps ---------------------------------------------------------------------------- *)
 Definition tkv (s : bytes) (kv : key * item) : key * item := (tkey s (fst kv), titem s (snd kv)).
@@ -69,30 +94,23 @@ Proof.
     rewrite !raw_encode_empty. cbn [app]. rewrite <- ?app_assoc. cbn [app]. rewrite ?app_nil_r. reflexivity.
 Qed.
 
-(* what is known of a parsed value: not a table made of dotted keys, and (for plain inline keys)
-   its core prints as o *)
-Definition vrend (s : bytes) (v : value) (a : aval) (o : bytes) : Prop :=
-  undot v = true /\
-  (simple_inline a = true -> forall fuel dflt, value_size (core s v) < fuel -> encode_value fuel (core s v) dflt = o).
+(* what is known of a parsed value: if it is plain, its core prints as o *)
+Definition vrend (s : bytes) (v : value) (o : bytes) : Prop :=
+  vplain v = true -> forall fuel dflt, value_size (core s v) < fuel -> encode_value fuel (core s v) dflt = o.
 
 Definition vrender_at (s : bytes) (p : parser value) : Prop :=
   forall i v i', isrc s i -> p i = Ok v i' ->
-    exists t a o, vtext t a o /\ splits i t i' /\ isrc s i' /\ vrend s v a o.
-
-Lemma undot_decorate v p q : undot (value_decorate v p q) = undot v.
-Proof. destruct v; reflexivity. Qed.
-Lemma undot_apply_raw v sp : undot (apply_raw v sp) = undot v.
-Proof. unfold apply_raw. rewrite undot_decorate. destruct v; reflexivity. Qed.
+    exists t a o, vtext t a o /\ splits i t i' /\ isrc s i' /\ vrend s v o.
 
 (* a value with decor pre / suf recorded from the spans of the trivia w1 / w2 *)
-Lemma vrend_decorated s v a o i1 w1 j1 i2 w2 j2 :
-  vrend s v a o -> isrc s i1 -> splits i1 w1 j1 -> isrc s i2 -> splits i2 w2 j2 ->
-  simple_inline a = true -> forall fuel dflt,
+Lemma vrend_decorated s v o i1 w1 j1 i2 w2 j2 :
+  vrend s v o -> isrc s i1 -> splits i1 w1 j1 -> isrc s i2 -> splits i2 w2 j2 ->
+  vplain v = true -> forall fuel dflt,
   value_size (tvalue s (value_decorate v (raw_with_span (pos i1, pos j1)) (raw_with_span (pos i2, pos j2)))) < fuel ->
   encode_value fuel (tvalue s (value_decorate v (raw_with_span (pos i1, pos j1)) (raw_with_span (pos i2, pos j2)))) dflt
   = ncr w1 ++ o ++ ncr w2.
 Proof.
-  intros [_ Hv] H1 S1 H2 S2 Hs fuel dflt Hf. destruct fuel as [|f]; [lia|].
+  intros Hv H1 S1 H2 S2 Hs fuel dflt Hf. destruct fuel as [|f]; [lia|].
   rewrite (enc_decorated s v _ _ f dflt ([], [])). rewrite (span_prints s i1 w1 j1 _ H1 S1), (span_prints s i2 w2 j2 _ H2 S2).
   rewrite value_size_decorated in Hf. rewrite (Hv Hs (S f) ([], []) Hf). reflexivity.
 Qed.
@@ -111,9 +129,10 @@ Proof. reflexivity. Qed.
 
 (* ---- inline tables whose pairs have plain keys --------------------------------------------------------- *)
 Definition plain_pair (kv : key * value) : list key * (key * item) := ([], (fst kv, IValue (snd kv))).
+Definition mk_item (kv : key * value) : key * item := (fst kv, IValue (snd kv)).
 
 Lemma loop_d_plain : forall kvl m m',
-  table_from_pairs_loop_d m (map plain_pair kvl) = COk m' -> m' = m ++ map (fun kv => (fst kv, IValue (snd kv))) kvl.
+  table_from_pairs_loop_d m (map plain_pair kvl) = COk m' -> m' = m ++ map mk_item kvl.
 Proof.
   induction kvl as [|[k v] tl IH]; intros m m' H; cbn [map plain_pair table_from_pairs_loop_d fst snd] in H.
   - injection H as <-. rewrite app_nil_r. reflexivity.
@@ -131,17 +150,17 @@ Lemma undot_tvalue s v : undot (tvalue s v) = undot v.
 Proof. destruct v as [x r d|vals tr c d sp|items pre im dt d sp]; rewrite ?tvalue_array, ?tvalue_inline; reflexivity. Qed.
 
 Lemma inline_values_plain s f kvl : Forall (fun kv : key * value => undot (snd kv) = true) kvl ->
-  inline_values (S f) [] (map (tkv s) (map (fun kv => (fst kv, IValue (snd kv))) kvl))
+  inline_values (S f) [] (map (tkv s) (map mk_item kvl))
   = map (fun kv => ([tkey s (fst kv)], tvalue s (snd kv))) kvl.
 Proof.
-  induction 1 as [|[k v] tl Hu _ IH]; [reflexivity|]. cbn [map fst snd] in *.
-  change (inline_values (S f) [] (tkv s (k, IValue v) :: map (tkv s) (map (fun kv => (fst kv, IValue (snd kv))) tl)))
+  induction 1 as [|[k v] tl Hu _ IH]; [reflexivity|]. cbn [snd] in Hu. cbn [map]. unfold mk_item at 1. cbn [fst snd].
+  change (inline_values (S f) [] (tkv s (k, IValue v) :: map (tkv s) (map mk_item tl)))
     with ((let path := [] ++ [fst (tkv s (k, IValue v))] in
            match snd (tkv s (k, IValue v)) with
            | IValue (VInline sub _ _ true _ _) => inline_values f path sub
            | IValue v0 => [(path, v0)]
            | _ => []
-           end) ++ inline_values (S f) [] (map (tkv s) (map (fun kv => (fst kv, IValue (snd kv))) tl))).
+           end) ++ inline_values (S f) [] (map (tkv s) (map mk_item tl))).
   rewrite IH. unfold tkv. cbn [fst snd app]. rewrite titem_value. rewrite <- (undot_tvalue s v) in Hu.
   destruct (tvalue s v) as [x r d|vals tr c d sp|items pre im dt d sp]; try reflexivity.
   cbn [undot] in Hu. destruct dt; [discriminate|reflexivity].
@@ -151,6 +170,91 @@ Lemma kv_size_in (m : list (key * item)) k it : In (k, it) m ->
   item_size it <= fold_right (fun kv acc => match kv with (_, i0) => item_size i0 + acc end) 0 m.
 Proof. induction m as [|[k0 x] m IH]; [intros []|]. intros [E | H]; cbn [fold_right]; [injection E as -> ->; lia|]. specialize (IH H). lia. Qed.
 
+(* ---- a dotted key leaves an implicit inline table among the items: the result is not plain ---------------- *)
+Definition ibad (it : item) : bool := match it with IValue (VInline _ _ true _ _ _) => true | _ => false end.
+Definition has_bad (m : kvs) : bool := existsb (fun kv => ibad (snd kv)) m.
+
+Lemma ibad_not_plain it : ibad it = true -> iplain it = false.
+Proof.
+  destruct it as [|v| |]; try discriminate. destruct v as [x r d|vals tr c d sp|items pre im dt d sp]; try discriminate.
+  cbn [ibad iplain]. rewrite vplain_inline. destruct im; [reflexivity|discriminate].
+Qed.
+
+Lemma has_bad_not_plain m : has_bad m = true -> items_plain m = false.
+Proof.
+  unfold has_bad, items_plain. induction m as [|[k it] m IH]; [discriminate|]. cbn [existsb forallb snd]. intro H.
+  apply orb_true_iff in H as [H | H]; [rewrite (ibad_not_plain it H); reflexivity|rewrite (IH H); apply andb_false_r].
+Qed.
+
+Lemma has_bad_push m k it : has_bad m = true \/ ibad it = true -> has_bad (kv_push m k it) = true.
+Proof. unfold has_bad, kv_push. rewrite existsb_app. cbn [existsb snd]. intros [-> | ->]; [reflexivity|]. rewrite orb_true_r. apply orb_true_r. Qed.
+
+Lemma has_bad_set m k k' it0 it : kv_get m k = Some (k', it0) -> ibad it = true -> has_bad (kv_set m k it) = true.
+Proof.
+  unfold has_bad. induction m as [|[k1 v1] m IH]; cbn [kv_get kv_set]; [discriminate|].
+  destruct (bytes_eqb (k_key k1) k); intros E Hb; cbn [existsb snd]; [rewrite Hb; reflexivity|].
+  rewrite (IH E Hb). apply orb_true_r.
+Qed.
+
+Lemma kv_set_same_bad m k k' it0 it : kv_get m k = Some (k', it0) -> ibad it = ibad it0 -> has_bad (kv_set m k it) = has_bad m.
+Proof.
+  unfold has_bad. induction m as [|[k1 v1] m IH]; cbn [kv_get kv_set]; [discriminate|].
+  destruct (bytes_eqb (k_key k1) k); intros E Hb; cbn [existsb snd].
+  - injection E as _ <-. rewrite Hb. reflexivity.
+  - rewrite (IH E Hb). reflexivity.
+Qed.
+
+Lemma inline_insert_bad m dh path pe k v m' :
+  inline_insert m dh path pe k v = COk m' -> has_bad m = true \/ path <> [] -> has_bad m' = true.
+Proof.
+  destruct path as [|pk ptl]; cbn [inline_insert].
+  - destruct (Bool.eqb dh pe); [discriminate|]. destruct (kv_get m (k_key k)); [discriminate|].
+    intros E [Hb | Hn]; [|congruence]. injection E as <-. apply has_bad_push. left. exact Hb.
+  - intros E _. destruct (kv_get m (k_key pk)) as [[k' it]|] eqn:G.
+    + destruct it as [|val| |]; try discriminate. destruct val as [x r d|vals tr c d sp|sub pre imp dt dec sp]; try discriminate.
+      destruct imp; cbn [negb] in E; [|discriminate].
+      destruct (inline_insert sub dt ptl pe k v) as [sub'| |]; try discriminate. injection E as <-.
+      apply (has_bad_set m _ _ _ _ G). reflexivity.
+    + destruct (inline_insert [] true ptl pe k v) as [sub'| |]; try discriminate. injection E as <-.
+      apply has_bad_push. right. reflexivity.
+Qed.
+
+Lemma loop_d_bad : forall pairs m m', table_from_pairs_loop_d m pairs = COk m' ->
+  has_bad m = true \/ Exists (fun x => fst x <> []) pairs -> has_bad m' = true.
+Proof.
+  induction pairs as [|[path [k v]] tl IH]; intros m m' H Hb; cbn [table_from_pairs_loop_d] in H.
+  - injection H as <-. destruct Hb as [Hb | Hb]; [exact Hb|inversion Hb].
+  - destruct (check_depth _); [discriminate|].
+    destruct (inline_insert m false path _ k v) as [m1| |] eqn:E; try discriminate.
+    apply (IH m1 m' H). destruct Hb as [Hb | Hb].
+    + left. apply (inline_insert_bad _ _ _ _ _ _ _ E). left. exact Hb.
+    + inversion Hb as [? ? Hx|? ? Hx]; subst; [left; apply (inline_insert_bad _ _ _ _ _ _ _ E); right; exact Hx|right; exact Hx].
+Qed.
+
+Lemma set_spans_bad : forall path m e, has_bad (inline_set_spans m path e) = has_bad m.
+Proof.
+  induction path as [|k ptl IH]; intros m e; cbn [inline_set_spans]; [reflexivity|].
+  destruct (kv_get m (k_key k)) as [[k' it]|] eqn:G; [|reflexivity].
+  destruct it as [|val| |]; try reflexivity. destruct val as [x r d|vals tr c d sp|sub pre imp dt dec sp]; try reflexivity.
+  apply (kv_set_same_bad m _ _ _ _ G). reflexivity.
+Qed.
+
+Lemma spans_pass_bad : forall pairs m, has_bad (inline_spans_pass m pairs) = has_bad m.
+Proof.
+  unfold inline_spans_pass. induction pairs as [|[path [k v]] tl IH]; intro m; cbn [fold_left]; [reflexivity|].
+  rewrite IH. apply set_spans_bad.
+Qed.
+
+(* a plain inline table was built from pairs with plain keys *)
+Lemma plain_pairs pairs m : table_from_pairs_loop_d [] pairs = COk m ->
+  items_plain (inline_spans_pass m pairs) = true -> Forall (fun x => fst x = []) pairs.
+Proof.
+  intros H Hp. apply Forall_forall. intros x Hin. destruct (fst x) as [|pk ptl] eqn:E; [reflexivity|]. exfalso.
+  assert (Hb : has_bad m = true).
+  { apply (loop_d_bad pairs [] m H). right. apply Exists_exists. exists x. split; [exact Hin|]. rewrite E. discriminate. }
+  rewrite <- (spans_pass_bad pairs m) in Hb. rewrite (has_bad_not_plain _ Hb) in Hp. discriminate.
+Qed.
+
 Section Render.
   Variable s : bytes.
   Variable vr : parser value.
@@ -159,13 +263,13 @@ Section Render.
 
   (* ---- arrays ---------------------------------------------------------------------------------------- *)
   (* an element as printed: trivia, value, trivia *)
-  Definition irend (it : item) (a : aval) (oi : bytes) : Prop :=
+  Definition irend (it : item) (oi : bytes) : Prop :=
     exists v, it = IValue v /\
-      (simple_inline a = true -> forall fuel dflt, value_size (tvalue s v) < fuel -> encode_value fuel (tvalue s v) dflt = oi).
+      (vplain v = true -> forall fuel dflt, value_size (tvalue s v) < fuel -> encode_value fuel (tvalue s v) dflt = oi).
 
   Lemma array_value_render i it i1 : isrc s i -> array_value vr i = Ok it i1 ->
     exists w1 t a o w2, wscn_tok w1 /\ vtext t a o /\ wscn_tok w2 /\ splits i (w1 ++ t ++ w2) i1 /\ isrc s i1
-                        /\ irend it a (ncr w1 ++ o ++ ncr w2).
+                        /\ irend it (ncr w1 ++ o ++ ncr w2).
   Proof.
     unfold array_value. intros Hi H.
     apply bind_inv in H as (pre & j1 & H1 & H). pose proof H1 as H1'. apply span_inv in H1' as (u1 & _ & Epre).
@@ -175,8 +279,8 @@ Section Render.
     apply span_wscn_inv in H3 as (w2 & Hw2 & S3). destruct (isrc_splits s j2 w2 j3 Hj2 S3) as [Hj3 _].
     apply ret_inv in H as [-> ->]. exists w1, t, a, o, w2. repeat (split; [assumption|]).
     split; [exact (splits_trans _ _ _ _ _ S1 (splits_trans _ _ _ _ _ S2 S3))|]. split; [exact Hj3|].
-    eexists. split; [reflexivity|]. subst pre suf. intros Hs fuel dflt Hf.
-    apply (vrend_decorated s v a o i w1 j1 j2 w2 j3 Hv Hi S1 Hj2 S3 Hs fuel dflt Hf).
+    eexists. split; [reflexivity|]. subst pre suf. rewrite vplain_decorate. intros Hs fuel dflt Hf.
+    apply (vrend_decorated s v o i w1 j1 j2 w2 j3 Hv Hi S1 Hj2 S3 Hs fuel dflt Hf).
   Qed.
 
   Lemma mono_shrinking {A} (p : parser A) : mono p -> shrinking p.
@@ -186,7 +290,7 @@ Section Render.
     forall w1 t a o w2 c, wscn_tok w1 -> vtext t a o -> wscn_tok w2 -> (c = [] \/ c = [x2c]) ->
     exists u l ou, avtext (w1 ++ t ++ w2 ++ u ++ c) (a :: l) (ncr w1 ++ o ++ ncr w2 ++ ou ++ c)
                    /\ splits i1 u i2 /\ isrc s i2
-                   /\ (forallb simple_inline l = true -> forall f,
+                   /\ (forallb iplain items = true -> forall f,
                          (forall it, In it items -> item_size (titem s it) <= f) ->
                          enc_elems f false (map (titem s) items) = ou).
   Proof.
@@ -203,7 +307,7 @@ Section Render.
         replace (ncr w1 ++ o ++ ncr w2 ++ ([x2c] ++ (ncr w1' ++ o' ++ ncr w2') ++ ou) ++ c)
           with (ncr w1 ++ o ++ ncr w2 ++ [x2c] ++ (ncr w1' ++ o' ++ ncr w2' ++ ou ++ c)) by (rewrite <- !app_assoc; reflexivity).
         apply avt_more; assumption.
-      + cbn [forallb]. intros Hs f Hsz. apply andb_true_iff in Hs as [Hs1 Hs2]. subst it. cbn [map]. rewrite titem_value, enc_elems_value. cbv iota.
+      + cbn [forallb]. intros Hs f Hsz. apply andb_true_iff in Hs as [Hs1 Hs2]. subst it. cbn [iplain] in Hs1. cbn [map]. rewrite titem_value, enc_elems_value. cbv iota.
         rewrite (Hit Hs1 f DEFAULT_VALUE_DECOR).
         * rewrite (Henc Hs2 f); [rewrite <- !app_assoc; reflexivity|]. intros it0 Hin. apply Hsz. right. exact Hin.
         * specialize (Hsz (IValue v') (or_introl eq_refl)). rewrite titem_value in Hsz. cbn [item_size] in Hsz. lia.
@@ -213,7 +317,7 @@ Section Render.
     exists body l ob items tr c dec sp,
       v = VArray items tr c dec sp /\ splits i body i' /\ isrc s i'
       /\ vtext ([x5b] ++ body ++ [x5d]) (AArr l) ([x5b] ++ ob ++ [x5d])
-      /\ (forallb simple_inline l = true -> forall f, (forall it, In it items -> item_size (titem s it) <= f) ->
+      /\ (forallb iplain items = true -> forall f, (forall it, In it items -> item_size (titem s it) <= f) ->
            enc_elems f true (map (titem s) items)
            ++ (if c && negb (match items with [] => true | _ => false end) then [x2c] else []) ++ raw_encode (traw s tr) [] = ob).
   Proof.
@@ -249,14 +353,15 @@ Section Render.
           replace ([x5b] ++ ((ncr w1 ++ ov ++ ncr w2 ++ ou ++ c) ++ ncr w) ++ [x5d])
             with ([x5b] ++ (ncr w1 ++ ov ++ ncr w2 ++ ou ++ c) ++ ncr w ++ [x5d]) by (rewrite <- !app_assoc; reflexivity).
           apply vt_array; assumption.
-        * cbn [forallb]. intros Hs f Hsz. apply andb_true_iff in Hs as [Hs1 Hs2]. subst it. cbn [map]. rewrite titem_value, enc_elems_value. cbv iota. cbn [app].
+        * cbn [forallb]. intros Hs f Hsz. apply andb_true_iff in Hs as [Hs1 Hs2]. subst it. cbn [iplain] in Hs1. cbn [map]. rewrite titem_value, enc_elems_value. cbv iota. cbn [app].
           rewrite (Hit Hs1 f DEFAULT_LEADING_VALUE_DECOR).
           -- rewrite (Henc Hs2 f); [|intros it0 Hin; apply Hsz; right; exact Hin].
              subst tr. rewrite (span_prints s j2 w j3 [] Hj2 S3). rewrite andb_true_r, <- Ec. rewrite <- !app_assoc. reflexivity.
           -- specialize (Hsz (IValue v0) (or_introl eq_refl)). rewrite titem_value in Hsz. cbn [item_size] in Hsz. lia.
   Qed.
+
   Lemma array_render i v i' : isrc s i -> array vr i = Ok v i' ->
-    exists t l o, vtext t (AArr l) o /\ splits i t i' /\ isrc s i' /\ vrend s v (AArr l) o.
+    exists t l o, vtext t (AArr l) o /\ splits i t i' /\ isrc s i' /\ vrend s v o /\ nonscalar v.
   Proof.
     unfold array. intros Hi H. apply bind_inv in H as (x & j1 & H1 & H). apply byte_inv in H1 as [_ S1].
     destruct (isrc_splits s i [x5b] j1 Hi S1) as [Hj1 _].
@@ -265,8 +370,8 @@ Section Render.
     apply bind_inv in H as (y & j3 & H3 & H). apply context_inv, cut_err_inv, byte_inv in H3 as [_ S3].
     destruct (isrc_splits s j2 [x5d] j3 Hj2 S3) as [Hj3 _]. apply ret_inv in H as [-> ->].
     exists ([x5b] ++ body ++ [x5d]), l, ([x5b] ++ ob ++ [x5d]). split; [exact Hv|].
-    split; [exact (splits_trans _ _ _ _ _ S1 (splits_trans _ _ _ _ _ S2 S3))|]. split; [exact Hj3|]. split; [reflexivity|].
-    cbn [simple_inline]. intros Hs fuel dflt Hf. unfold core in *. cbn [value_decorate] in *. rewrite tvalue_array in *.
+    split; [exact (splits_trans _ _ _ _ _ S1 (splits_trans _ _ _ _ _ S2 S3))|]. split; [exact Hj3|]. split; [|exact I].
+    unfold vrend. rewrite vplain_array. intros Hs fuel dflt Hf. unfold core in *. cbn [value_decorate] in *. rewrite tvalue_array in *.
     destruct fuel as [|f]; [lia|]. rewrite enc_array. unfold decor_prefix, decor_suffix. cbn [tdecor decor_new d_prefix d_suffix toraw traw].
     rewrite !raw_encode_empty. cbn [app]. rewrite ?app_nil_r.
     assert (Hsz : forall it, In it items -> item_size (titem s it) <= f).
@@ -278,18 +383,17 @@ Section Render.
   Qed.
 
   (* ---- inline tables -------------------------------------------------------------------------------- *)
-  (* a pair as printed (plain key): blanks key blanks = blanks value blanks *)
-  Definition prend (x : list key * (key * item)) (p : list bytes) (a : aval) (w0 body : bytes) : Prop :=
-    Nat.eqb (length p) 1 && simple_inline a = true ->
-    fst x = [] /\ exists v, snd (snd x) = IValue v /\ undot v = true /\
-      forall f dflt D, value_size (tvalue s v) < f ->
-        encode_key_path [tkey s (fst (snd x))] D ++ [x3d] ++ encode_value f (tvalue s v) dflt = w0 ++ body.
+  (* a pair as printed when its key is plain: blanks key blanks = blanks value blanks *)
+  Definition prend (x : list key * (key * item)) (w0 body : bytes) : Prop :=
+    exists v, snd (snd x) = IValue v /\
+      (fst x = [] -> vplain v = true -> forall f dflt D z, value_size (tvalue s v) < f ->
+        encode_key_path [tkey s (fst (snd x))] D ++ [x3d] ++ encode_value f (tvalue s v) dflt ++ z = w0 ++ body ++ z).
 
   Lemma inline_keyval_render i x i1 : isrc s i -> inline_keyval vr i = Ok x i1 ->
     exists w0 kt p w1 w2 t a o w3,
       ws_tok w0 /\ key_tok kt p /\ ws_tok w1 /\ ws_tok w2 /\ vtext t a o /\ ws_tok w3
       /\ splits i (w0 ++ (kt ++ w1 ++ [x3d] ++ w2 ++ t) ++ w3) i1 /\ isrc s i1
-      /\ prend x p a w0 ((kt ++ w1 ++ [x3d] ++ w2 ++ o) ++ w3) /\ stops wschar (rest i1).
+      /\ prend x w0 ((kt ++ w1 ++ [x3d] ++ w2 ++ o) ++ w3) /\ stops wschar (rest i1).
   Proof.
     rewrite inline_keyval_eq. intros Hi H. apply bind_inv in H as (kp & j1 & H1 & H).
     destruct (key_render s i kp j1 Hi H1) as (w0 & kt & w1 & Hw0 & Hkt & Hw1 & S1 & Hj1 & Hkenc).
@@ -306,13 +410,9 @@ Section Render.
     exists w0, kt, (map k_key kp), w1, w2, t, a, o, w3. repeat (split; [assumption|]). split; [|split; [exact Hk4|split; [|exact Hst]]].
     - pose proof (splits_trans _ _ _ _ _ S1 (splits_trans _ _ _ _ _ Se (splits_trans _ _ _ _ _ S2 (splits_trans _ _ _ _ _ S3 S4)))) as S.
       rewrite <- !app_assoc in *. exact S.
-    - intro Hs. apply andb_true_iff in Hs as [Hl Hs]. apply Nat.eqb_eq in Hl. rewrite map_length in Hl.
-      assert (Ekp : kp = [k] /\ path = []).
-      { pose proof (DefsEquivSim.pop_key_some _ _ _ Ep) as E. rewrite E, app_length in Hl. cbn [length] in Hl.
-        destruct path; [|cbn [length] in Hl; lia]. auto. }
-      destruct Ekp as [-> ->]. cbn [fst snd]. split; [reflexivity|]. eexists. split; [reflexivity|].
-      split; [rewrite undot_decorate; apply Hv|]. intros f dflt D Hf. subst pre' suf'.
-      rewrite (vrend_decorated s v' a o k1 w2 k2 k3 w3 k4 Hv Hk1 S2 Hk3 S4 Hs f dflt Hf).
+    - cbn [fst snd]. eexists. split; [reflexivity|]. intros -> Hs f dflt D z Hf. rewrite vplain_decorate in Hs.
+      assert (Ekp : kp = [k]) by (apply (DefsEquivSim.pop_key_some _ _ _ Ep)). subst kp. subst pre' suf'.
+      rewrite (vrend_decorated s v' o k1 w2 k2 k3 w3 k4 Hv Hk1 S2 Hk3 S4 Hs f dflt Hf).
       cbn [map] in Hkenc. rewrite (Hkenc D). rewrite (ncr_ws w2 Hw2), (ncr_ws w3 Hw3). rewrite <- !app_assoc. reflexivity.
   Qed.
 
@@ -323,19 +423,18 @@ Section Render.
       splits i1 x i2 /\ isrc s i2 /\ stops wschar (rest i2) /\ w3 ++ x = u ++ wl /\ ws_tok wl
       /\ iktext (kt ++ w1 ++ [x3d] ++ w2 ++ t ++ u) ((p, a) :: l) (kt ++ w1 ++ [x3d] ++ w2 ++ o ++ ou)
       /\ exists rows : list (bytes * bytes),
-           Forall2 (fun xr pa => prend (fst xr) (fst pa) (snd pa) (fst (snd xr)) (snd (snd xr))) (combine prs rows) l
-           /\ length rows = length prs
+           Forall2 (fun x r => prend x (fst r) (snd r)) prs rows
            /\ w3 ++ flat_map (fun r => [x2c] ++ fst r ++ snd r) rows = ou ++ wl.
   Proof.
     intros Hi R. induction R as [i F|i x j E Hlt F|i x j pr j2 prs i3 E Hlt E2 Hle R IH]; intros Hst0 kt p w1 w2 t a o w3 Hkt Hw1 Hw2 Ht Hw3.
     - exists [], [], [], w3, []. split; [apply splits_nil|]. split; [exact Hi|]. split; [exact Hst0|]. split; [rewrite !app_nil_r; reflexivity|]. split; [exact Hw3|].
-      split; [rewrite !app_nil_r; apply ikt_last; assumption|]. exists []. split; [constructor|]. split; [reflexivity|]. cbn [flat_map]. rewrite app_nil_r. reflexivity.
+      split; [rewrite !app_nil_r; apply ikt_last; assumption|]. exists []. split; [constructor|]. cbn [flat_map]. rewrite app_nil_r. reflexivity.
     - exists [], [], [], w3, []. split; [apply splits_nil|]. split; [exact Hi|]. split; [exact Hst0|]. split; [rewrite !app_nil_r; reflexivity|]. split; [exact Hw3|].
-      split; [rewrite !app_nil_r; apply ikt_last; assumption|]. exists []. split; [constructor|]. split; [reflexivity|]. cbn [flat_map]. rewrite app_nil_r. reflexivity.
+      split; [rewrite !app_nil_r; apply ikt_last; assumption|]. exists []. split; [constructor|]. cbn [flat_map]. rewrite app_nil_r. reflexivity.
     - apply byte_inv in E as [_ S1]. destruct (isrc_splits s i [x2c] j Hi S1) as [Hj _].
       destruct (inline_keyval_render j pr j2 Hj E2)
         as (w0' & kt' & p' & w1' & w2' & t' & a' & o' & w3' & Hw0' & Hkt' & Hw1' & Hw2' & Ht' & Hw3' & S2 & Hj2 & Hpr & Hst2).
-      destruct (IH Hj2 Hst2 kt' p' w1' w2' t' a' o' w3' Hkt' Hw1' Hw2' Ht' Hw3') as (u & l & ou & wl & x' & Sx & Hi3 & Hst3 & Ex & Hwl & Hkv & rows & HF & Hlen & Erows).
+      destruct (IH Hj2 Hst2 kt' p' w1' w2' t' a' o' w3' Hkt' Hw1' Hw2' Ht' Hw3') as (u & l & ou & wl & x' & Sx & Hi3 & Hst3 & Ex & Hwl & Hkv & rows & HF & Erows).
       exists (w3 ++ [x2c] ++ w0' ++ (kt' ++ w1' ++ [x3d] ++ w2' ++ t' ++ u)), ((p', a') :: l),
              (w3 ++ [x2c] ++ w0' ++ (kt' ++ w1' ++ [x3d] ++ w2' ++ o' ++ ou)), wl,
              (([x2c] ++ w0' ++ (kt' ++ w1' ++ [x3d] ++ w2' ++ t') ++ w3') ++ x').
@@ -344,45 +443,37 @@ Section Render.
       + replace (kt ++ w1 ++ [x3d] ++ w2 ++ t ++ w3 ++ [x2c] ++ w0' ++ kt' ++ w1' ++ [x3d] ++ w2' ++ t' ++ u)
           with (kt ++ w1 ++ [x3d] ++ w2 ++ t ++ w3 ++ [x2c] ++ w0' ++ (kt' ++ w1' ++ [x3d] ++ w2' ++ t' ++ u)) by reflexivity.
         apply ikt_more; assumption.
-      + exists ((w0', (kt' ++ w1' ++ [x3d] ++ w2' ++ o') ++ w3') :: rows). cbn [combine]. split; [constructor; [exact Hpr|exact HF]|].
-        split; [cbn [length]; rewrite Hlen; reflexivity|]. cbn [flat_map fst snd]. rewrite <- !app_assoc. do 8 f_equal. exact Erows.
+      + exists ((w0', (kt' ++ w1' ++ [x3d] ++ w2' ++ o') ++ w3') :: rows). split; [constructor; [exact Hpr|exact HF]|].
+        cbn [flat_map fst snd]. rewrite <- !app_assoc. do 8 f_equal. exact Erows.
   Qed.
+
   (* rows printed behind the first pair *)
-  Lemma enc_kvs_rows f len : forall (prs : list (list key * (key * item))) rows l kvl i,
-    Forall2 (fun xr pa => prend (fst xr) (fst pa) (snd pa) (fst (snd xr)) (snd (snd xr))) (combine prs rows) l ->
-    length rows = length prs ->
-    forallb (fun pv => Nat.eqb (length (fst pv)) 1 && simple_inline (snd pv)) l = true ->
-    prs = map plain_pair kvl ->
+  Lemma enc_kvs_rows f len : forall (prs : list (list key * (key * item))) rows kvl i,
+    Forall2 (fun x r => prend x (fst r) (snd r)) prs rows ->
+    prs = map plain_pair kvl -> Forall (fun kv : key * value => vplain (snd kv) = true) kvl ->
     (forall kv, In kv kvl -> value_size (tvalue s (snd kv)) < f) ->
     enc_kvs f len (S i) (map (fun kv => ([tkey s (fst kv)], tvalue s (snd kv))) kvl)
     = flat_map (fun r => [x2c] ++ fst r ++ snd r) rows.
   Proof.
-    induction prs as [|x prs IH]; intros rows l kvl i HF Hlen Hs Ekv Hsz.
-    - destruct kvl; [|discriminate]. destruct rows; [reflexivity|discriminate].
-    - destruct rows as [|r rows]; [discriminate|]. destruct kvl as [|[k v] kvl]; [discriminate|].
-      cbn [map plain_pair] in Ekv. injection Ekv as -> ->. cbn [combine] in HF.
-      inversion HF as [|xr pa ? l' Hp HF']; subst. cbn [forallb] in Hs. apply andb_true_iff in Hs as [Hs1 Hs2].
-      destruct (Hp Hs1) as (_ & v0 & Ev & _ & Henc). cbn [fst snd] in Ev, Henc. injection Ev as <-.
+    induction prs as [|x prs IH]; intros rows kvl i HF Ekv Hpl Hsz.
+    - destruct kvl; [|discriminate]. inversion HF. reflexivity.
+    - destruct kvl as [|[k v] kvl]; [discriminate|]. cbn [map plain_pair] in Ekv. injection Ekv as -> ->.
+      inversion HF as [|xr r ? rows' Hp HF']; subst. inversion Hpl as [|? ? Hv Hpl']; subst. cbn [snd] in Hv.
+      destruct Hp as (v0 & Ev & Henc). cbn [fst snd plain_pair] in Ev, Henc. injection Ev as <-.
       cbn [map enc_kvs fst snd]. cbn [Nat.eqb].
-      rewrite (Henc f _ DEFAULT_INLINE_KEY_DECOR (Hsz (k, v) (or_introl eq_refl))).
-      rewrite (IH rows l' kvl (S i) HF' ltac:(cbn [length] in Hlen; lia) Hs2 eq_refl).
+      rewrite (Henc eq_refl Hv f _ DEFAULT_INLINE_KEY_DECOR _ (Hsz (k, v) (or_introl eq_refl))).
+      rewrite (IH rows' kvl (S i) HF' eq_refl Hpl').
       + cbn [flat_map]. rewrite <- !app_assoc. reflexivity.
       + intros kv Hin. apply Hsz. right. exact Hin.
   Qed.
 
-  Lemma prend_plain (prs : list (list key * (key * item))) rows l :
-    Forall2 (fun xr pa => prend (fst xr) (fst pa) (snd pa) (fst (snd xr)) (snd (snd xr))) (combine prs rows) l ->
-    length rows = length prs ->
-    forallb (fun pv => Nat.eqb (length (fst pv)) 1 && simple_inline (snd pv)) l = true ->
-    exists kvl, prs = map plain_pair kvl /\ Forall (fun kv : key * value => undot (snd kv) = true) kvl.
+  Lemma prend_values (prs : list (list key * (key * item))) rows :
+    Forall2 (fun x r => prend x (fst r) (snd r)) prs rows -> Forall (fun x => fst x = []) prs ->
+    exists kvl, prs = map plain_pair kvl.
   Proof.
-    revert rows l. induction prs as [|x prs IH]; intros rows l HF Hlen Hs.
-    - exists []. split; [reflexivity|constructor].
-    - destruct rows as [|r rows]; [discriminate|]. cbn [combine] in HF. inversion HF as [|xr pa ? l' Hp HF']; subst.
-      cbn [forallb] in Hs. apply andb_true_iff in Hs as [Hs1 Hs2].
-      destruct (Hp Hs1) as (Epath & v0 & Ev & Hu & _). cbn [fst snd] in *.
-      destruct (IH rows l' HF' ltac:(cbn [length] in Hlen; lia) Hs2) as (kvl & -> & Hk).
-      destruct x as [path [k it]]. cbn [fst snd] in *. subst path it. exists ((k, v0) :: kvl). split; [reflexivity|constructor; assumption].
+    induction 1 as [|x r prs rows (v & Ev & _) _ IH]; intro Hp; [exists []; reflexivity|].
+    inversion Hp as [|? ? Hx Hp']; subst. destruct (IH Hp') as (kvl & ->).
+    destruct x as [path [k it]]. cbn [fst snd] in *. subst path it. exists ((k, v) :: kvl). reflexivity.
   Qed.
 
   Lemma ws_stops_nil w j j' : ws_tok w -> splits j w j' -> stops wschar (rest j) -> w = [].
@@ -391,8 +482,14 @@ Section Render.
     unfold ws_tok, all in Hw. cbn [forallb] in Hw. apply andb_true_iff in Hw as [Hb _]. congruence.
   Qed.
 
+  Lemma items_plain_mk kvl : items_plain (map mk_item kvl) = true -> Forall (fun kv : key * value => vplain (snd kv) = true) kvl.
+  Proof.
+    unfold items_plain. induction kvl as [|[k v] tl IH]; [constructor|]. cbn [map mk_item forallb fst snd iplain]. intro H.
+    apply andb_true_iff in H as [H1 H2]. constructor; [exact H1|apply IH, H2].
+  Qed.
+
   Lemma inline_table_render i v i' : isrc s i -> inline_table vr i = Ok v i' ->
-    exists t kvs o, vtext t (AInl kvs) o /\ splits i t i' /\ isrc s i' /\ vrend s v (AInl kvs) o.
+    exists t kvs o, vtext t (AInl kvs) o /\ splits i t i' /\ isrc s i' /\ vrend s v o /\ nonscalar v.
   Proof.
     rewrite inline_table_eq. intros Hi H. apply bind_inv in H as (x & j1 & H1 & H). apply byte_inv in H1 as [_ S1].
     destruct (isrc_splits s i [x7b] j1 Hi S1) as [Hj1 _].
@@ -406,19 +503,20 @@ Section Render.
     apply (separated0_inv _ _ _ _ _ (mono_shrinking _ (inline_keyval_mono vr Hmono)) (byte_shrinking _)) in E1
       as [(-> & -> & _) | (pr & i1 & prs & -> & E & R)].
     - (* { blanks } *)
-      destruct (isrc_splits s j1 w j2 Hj1 Sw) as [Hj2 _]. destruct (isrc_splits s j2 [x7d] j3 Hj2 S3) as [Hj3 _].
+      destruct (isrc_splits s j1 w k2 Hj1 Sw) as [Hk2 _]. destruct (isrc_splits s k2 [x7d] j3 Hk2 S3) as [Hj3 _].
       exists ([x7b] ++ w ++ [x7d]), [], ([x7b] ++ w ++ [x7d]). split; [apply (vt_inline_empty w Hw)|].
       split; [exact (splits_trans _ _ _ _ _ S1 (splits_trans _ _ _ _ _ Sw S3))|]. split; [exact Hj3|].
-      cbv in Htm. injection Htm as <-. split; [reflexivity|]. intros _ fuel dflt Hf. destruct fuel as [|f]; [lia|].
+      unfold table_from_pairs in Htm. cbn [table_from_pairs_loop_d inline_spans_pass fold_left] in Htm. injection Htm as <-. split; [|exact I].
+      intros _ fuel dflt Hf. destruct fuel as [|f]; [lia|].
       unfold core. cbn [value_decorate]. rewrite tvalue_inline, enc_inline. cbv zeta. cbn [map inline_values flat_map length enc_kvs].
       unfold decor_prefix, decor_suffix. cbn [tdecor decor_new d_prefix d_suffix toraw traw]. rewrite !raw_encode_empty.
-      subst sp. rewrite (span_prints s j1 w j2 [] Hj1 Sw), (ncr_ws w Hw). cbn [app]. rewrite ?app_nil_r. reflexivity.
+      subst sp. rewrite (span_prints s j1 w k2 [] Hj1 Sw), (ncr_ws w Hw). cbn [app]. rewrite ?app_nil_r. reflexivity.
     - (* { pairs } *)
       destruct (inline_keyval_render j1 pr i1 Hj1 E) as (w0 & kt & p & w1 & w2 & t & a & o & w3 & Hw0 & Hkt & Hw1 & Hw2 & Ht & Hw3 & Sp & Hi1 & Hpr & Hst1).
       destruct (inline_seps_render i1 prs k1 Hi1 R Hst1 kt p w1 w2 t a o w3 Hkt Hw1 Hw2 Ht Hw3)
-        as (u & l & ou & wl & x' & Sx & Hk1 & Hstk & Ex & Hwl & Hkv & rows & HF & Hlen & Erows).
-      pose proof (ws_stops_nil w k1 j2 Hw Sw Hstk) as Ew. subst w.
-      assert (Ej : j2 = k1) by (destruct Sw as [_ ->]; apply adv_nil). subst j2.
+        as (u & l & ou & wl & x' & Sx & Hk1 & Hstk & Ex & Hwl & Hkv & rows & HF & Erows).
+      pose proof (ws_stops_nil w k1 k2 Hw Sw Hstk) as Ew. subst w.
+      assert (Ej : k2 = k1) by (destruct Sw as [_ ->]; apply adv_nil). subst k2.
       destruct (isrc_splits s k1 [x7d] j3 Hk1 S3) as [Hj3 _].
       exists ([x7b] ++ w0 ++ (kt ++ w1 ++ [x3d] ++ w2 ++ t ++ u) ++ wl ++ [x7d]), ((p, a) :: l),
              ([x7b] ++ w0 ++ (kt ++ w1 ++ [x3d] ++ w2 ++ o ++ ou) ++ wl ++ [x7d]).
@@ -428,29 +526,155 @@ Section Render.
         rewrite <- !app_assoc in S. rewrite E2 in S. rewrite <- !app_assoc. exact S.
       + (* the table built from the pairs *)
         unfold table_from_pairs in Htm. destruct (table_from_pairs_loop_d [] (pr :: prs)) as [m| |] eqn:El; try discriminate.
-        injection Htm as <-. split; [reflexivity|]. cbn [simple_inline forallb]. intros Hs fuel dflt Hf.
-        assert (HF1 : Forall2 (fun xr pa => prend (fst xr) (fst pa) (snd pa) (fst (snd xr)) (snd (snd xr)))
-                        (combine (pr :: prs) ((w0, (kt ++ w1 ++ [x3d] ++ w2 ++ o) ++ w3) :: rows)) ((p, a) :: l))
-          by (cbn [combine]; constructor; [exact Hpr|exact HF]).
-        assert (Hlen1 : length ((w0, (kt ++ w1 ++ [x3d] ++ w2 ++ o) ++ w3) :: rows) = length (pr :: prs)) by (cbn [length]; rewrite Hlen; reflexivity).
-        destruct (prend_plain _ _ _ HF1 Hlen1 Hs) as (kvl & Ekv & Hu).
-        rewrite Ekv in El. apply loop_d_plain in El. cbn [app] in El. subst m. rewrite Ekv, spans_pass_plain.
+        assert (Etv : tv = VInline (inline_spans_pass m (pr :: prs)) (raw_with_span sp) false false decor_default None)
+          by (injection Htm as E0; symmetry; exact E0).
+        clear Htm. subst tv. split; [|exact I]. unfold vrend. rewrite vplain_inline. cbn [negb andb]. intros Hs fuel dflt Hf.
+        pose proof (plain_pairs _ _ El Hs) as Hpaths.
+        assert (HF1 : Forall2 (fun x r => prend x (fst r) (snd r)) (pr :: prs) ((w0, (kt ++ w1 ++ [x3d] ++ w2 ++ o) ++ w3) :: rows))
+          by (constructor; [exact Hpr|exact HF]).
+        destruct (prend_values _ _ HF1 Hpaths) as (kvl & Ekv).
+        rewrite Ekv in El. apply loop_d_plain in El. cbn [app] in El. subst m. rewrite Ekv, spans_pass_plain in Hs, Hf |- *.
+        pose proof (items_plain_mk kvl Hs) as Hpl.
+        assert (Hu : Forall (fun kv : key * value => undot (snd kv) = true) kvl)
+          by (eapply Forall_impl; [|exact Hpl]; intros kv0 Hk0; apply vplain_undot, Hk0).
         destruct fuel as [|f]; [lia|]. unfold core in *. cbn [value_decorate] in *. rewrite tvalue_inline in *. rewrite enc_inline. cbv zeta.
         rewrite (inline_values_plain s _ kvl Hu). rewrite map_length.
         unfold decor_prefix, decor_suffix. cbn [tdecor decor_new d_prefix d_suffix toraw traw]. rewrite !raw_encode_empty.
         subst sp. rewrite (span_prints s k1 [] k1 [] Hk1 Sw). cbn [ncr filter app]. rewrite ?app_nil_r.
         assert (Hsz : forall kv, In kv kvl -> value_size (tvalue s (snd kv)) < f).
         { intros [k0 v0] Hin. cbn [value_size] in Hf. cbn [snd].
-          pose proof (kv_size_in (map (tkv s) (map (fun kv => (fst kv, IValue (snd kv))) kvl)) (tkey s k0) (IValue (tvalue s v0))) as Hle.
-          assert (Hin' : In (tkey s k0, IValue (tvalue s v0)) (map (tkv s) (map (fun kv => (fst kv, IValue (snd kv))) kvl))).
+          pose proof (kv_size_in (map (tkv s) (map mk_item kvl)) (tkey s k0) (IValue (tvalue s v0))) as Hle.
+          assert (Hin' : In (tkey s k0, IValue (tvalue s v0)) (map (tkv s) (map mk_item kvl))).
           { rewrite map_map. apply in_map_iff. exists (k0, v0). split; [reflexivity|exact Hin]. }
           specialize (Hle Hin'). cbn [item_size] in Hle. lia. }
         destruct kvl as [|[k0 v0] kvl]; [discriminate|]. cbn [map plain_pair] in Ekv. injection Ekv as -> Ekv.
+        inversion Hpl as [|? ? Hv0 Hpl']; subst. cbn [snd] in Hv0.
         cbn [map enc_kvs fst snd]. cbn [Nat.eqb].
-        apply andb_true_iff in Hs as [Hs1 Hs2].
-        destruct (Hpr Hs1) as (_ & v1 & Ev & _ & Henc). cbn [fst snd] in Ev, Henc. injection Ev as <-.
-        rewrite (Henc f _ DEFAULT_INLINE_KEY_DECOR (Hsz (k0, v0) (or_introl eq_refl))).
-        rewrite (enc_kvs_rows f _ prs rows l kvl 0 HF Hlen Hs2 Ekv (fun kv Hin => Hsz kv (or_intror Hin))).
-        rewrite <- !app_assoc. do 7 f_equal. rewrite !app_assoc. rewrite <- (app_assoc w3). rewrite Erows. rewrite <- !app_assoc. reflexivity.
+        destruct Hpr as (v1 & Ev & Henc). cbn [fst snd plain_pair] in Ev, Henc. injection Ev as <-.
+        rewrite (Henc eq_refl Hv0 f _ DEFAULT_INLINE_KEY_DECOR _ (Hsz (k0, v0) (or_introl eq_refl))).
+        rewrite (enc_kvs_rows f _ (map plain_pair kvl) rows kvl 0 HF eq_refl Hpl' (fun kv Hin => Hsz kv (or_intror Hin))).
+        match type of Erows with _ ++ ?X = _ => set (F := X) in * end.
+        assert (E3 : forall z, w3 ++ F ++ z = ou ++ wl ++ z) by (intro z; rewrite !app_assoc, Erows; reflexivity).
+        clearbody F. repeat first [rewrite <- app_assoc | progress cbn [app]]. rewrite E3. reflexivity.
+  Qed.
+
+  (* ---- scalars and the dispatch ------------------------------------------------------------------------ *)
+  (* before apply_raw a scalar has no repr yet: what is known is its text *)
+  Definition vbody_rend (v : value) (t : bytes) (o : bytes) : Prop :=
+    match v with VScalar _ _ _ => o = t | _ => vrend s v o end.
+
+  Definition body_at (p : parser value) : Prop :=
+    forall i v i', isrc s i -> p i = Ok v i' ->
+      exists t a o, vtext t a o /\ splits i t i' /\ isrc s i' /\ vbody_rend v t o.
+
+  Lemma scalar_arm {A} (p : parser A) (mk : A -> scalar) :
+    (forall i x i', p i = Ok x i' -> exists t a, scalar_text t a /\ splits i t i') ->
+    body_at (pmap (fun x => scalar_value (mk x)) p).
+  Proof.
+    intros Hp i v i' Hi H. apply pmap_inv in H as (x & H & ->). apply Hp in H as (t & a & Ht & S).
+    exists t, a, t. split; [apply vt_scalar, Ht|]. split; [exact S|]. split; [apply (isrc_splits s i t i' Hi S)|reflexivity].
+  Qed.
+
+  Lemma string_arm_body : body_at (pmap (fun x => scalar_value (SString x)) string_).
+  Proof. apply scalar_arm. intros i x i' H. apply string_sound in H as (t & Ht & S). exists t, (AStr x). split; [apply st_string, Ht|exact S]. Qed.
+  Lemma integer_arm_body : body_at (pmap (fun z => scalar_value (SInt z)) integer).
+  Proof. apply scalar_arm. intros i x i' H. apply integer_sound in H as (t & Ht & S & _). exists t, (AInt x). split; [apply st_integer, Ht|exact S]. Qed.
+  Lemma float_arm_body : body_at (pmap (fun f => scalar_value (SFloat f)) float).
+  Proof. apply scalar_arm. intros i x i' H. apply float_sound in H as (t & Ht & _ & S). exists t, (AFloat x). split; [apply st_float, Ht|exact S]. Qed.
+  Lemma date_time_arm_body : body_at (pmap (fun d => scalar_value (SDatetime d)) date_time).
+  Proof. apply scalar_arm. intros i x i' H. apply date_time_sound in H as (t & Ht & S). exists t, (ADate x). split; [apply st_date_time, Ht|exact S]. Qed.
+  Lemma true_arm_body : body_at (pmap (fun v => scalar_value (SBool v)) true_).
+  Proof.
+    apply scalar_arm. intros i x i' H. apply true_sound in H as [-> S]. exists t_true, (ABool true).
+    split; [apply st_boolean; left; auto|exact S].
+  Qed.
+  Lemma false_arm_body : body_at (pmap (fun v => scalar_value (SBool v)) false_).
+  Proof.
+    apply scalar_arm. intros i x i' H. apply false_sound in H as [-> S]. exists t_false, (ABool false).
+    split; [apply st_boolean; right; auto|exact S].
+  Qed.
+  Lemma inf_arm_body : body_at (pmap (fun f => scalar_value (SFloat f)) inf).
+  Proof.
+    apply scalar_arm. intros i x i' H. unfold inf in H. apply pvalue_inv in H as (-> & y & H). apply lit_inv in H as [_ S].
+    exists t_inf, (AFloat (FInf false)). split; [apply st_float, (float_inf [] false); left; auto|exact S].
+  Qed.
+  Lemma nan_arm_body : body_at (pmap (fun f => scalar_value (SFloat f)) nan).
+  Proof.
+    apply scalar_arm. intros i x i' H. unfold nan in H. apply pvalue_inv in H as (-> & y & H). apply lit_inv in H as [_ S].
+    exists t_nan, (AFloat (FNan false)). split; [apply st_float, (float_nan [] false); left; auto|exact S].
+  Qed.
+
+  Lemma body_context p : body_at p -> body_at (context p).
+  Proof. intros Hp i v i' Hi H. apply context_inv in H. apply (Hp i v i' Hi H). Qed.
+  Lemma body_alt p q : body_at p -> body_at q -> body_at (p <|> q).
+  Proof. intros Hp Hq i v i' Hi H. apply alt_inv in H as [H | [_ H]]; [apply (Hp i v i' Hi H)|apply (Hq i v i' Hi H)]. Qed.
+  Lemma body_fail : body_at (context fail).
+  Proof. intros i v i' _ H. apply context_inv in H. discriminate. Qed.
+
+  Lemma array_arm_body : body_at (check_recursion (array vr)).
+  Proof.
+    intros i v i' Hi H. apply check_recursion_splits in H as (_ & i2 & H & Hs).
+    destruct (array_render _ v i2 (isrc_set_depth s i _ Hi) H) as (t & l & o & Hv & S & _ & Hr & Hn).
+    exists t, (AArr l), o. split; [exact Hv|]. split; [apply Hs, S|]. split; [apply (isrc_splits s i t i' Hi (Hs t S))|].
+    destruct v; [destruct Hn|exact Hr|exact Hr].
+  Qed.
+
+  Lemma inline_arm_body : body_at (check_recursion (inline_table vr)).
+  Proof.
+    intros i v i' Hi H. apply check_recursion_splits in H as (_ & i2 & H & Hs).
+    destruct (inline_table_render _ v i2 (isrc_set_depth s i _ Hi) H) as (t & kvs & o & Hv & S & _ & Hr & Hn).
+    exists t, (AInl kvs), o. split; [exact Hv|]. split; [apply Hs, S|]. split; [apply (isrc_splits s i t i' Hi (Hs t S))|].
+    destruct v; [destruct Hn|exact Hr|exact Hr].
+  Qed.
+
+  Lemma value_arm_body b : body_at (value_arm vr b).
+  Proof.
+    unfold value_arm.
+    repeat match goal with |- body_at (if ?c then _ else _) => destruct c end;
+      first [ apply string_arm_body | apply array_arm_body | apply inline_arm_body
+            | apply body_fail
+            | apply body_context; first [apply integer_arm_body | apply float_arm_body | apply true_arm_body
+                                        | apply false_arm_body | apply inf_arm_body | apply nan_arm_body]
+            | idtac ].
+    unfold number_arm. apply body_alt; [apply date_time_arm_body|]. apply body_alt; [apply float_arm_body|apply integer_arm_body].
+  Qed.
+
+  Lemma value_body_body : body_at (value_body vr).
+  Proof.
+    intros i v i' Hi H. pose proof H as H0. unfold value_body in H0. apply bind_inv in H0 as (b & j & H1 & _).
+    apply context_inv, peek_inv in H1 as [_ (j' & H1)]. apply any_inv in H1 as [R _]. cbn [app] in R.
+    rewrite (value_body_arm vr i b _ R) in H. apply (value_arm_body b i v i' Hi H).
+  Qed.
+
+  Lemma core_apply_raw_nonscalar v sp : nonscalar v -> core s (apply_raw v sp) = core s v.
+  Proof.
+    unfold core, apply_raw. destruct v as [x r d|vals tr c d sp0|items pre im dt d sp0]; [intros []| |]; intros _;
+      cbn [value_decorate]; rewrite ?tvalue_array, ?tvalue_inline; reflexivity.
+  Qed.
+
+  Lemma value_step_render : vrender_at s (value_step vr).
+  Proof.
+    intros i v i' Hi H. unfold value_step in H. apply pmap_inv in H as ([v0 sp] & H & ->).
+    apply with_span_inv in H as (a0 & H & E). injection E as <- ->.
+    destruct (value_body_body i v0 i' Hi H) as (t & a & o & Ht & S & Hi' & Hb).
+    exists t, a, o. split; [exact Ht|]. split; [exact S|]. split; [exact Hi'|].
+    destruct v0 as [x r d|vals tr c d sp0|items pre im dt d sp0]; cbn [vbody_rend] in Hb.
+    - subst o. intros _ fuel dflt Hf. destruct fuel as [|f]; [lia|].
+      unfold core, apply_raw. cbn [value_decorate]. rewrite tvalue_scalar, enc_scalar.
+      rewrite (span_repr s i t i' Hi S). unfold decor_prefix, decor_suffix. cbn [tdecor decor_new d_prefix d_suffix toraw traw].
+      rewrite !raw_encode_empty. cbn [app]. apply app_nil_r.
+    - unfold vrend. rewrite vplain_apply_raw, core_apply_raw_nonscalar by exact I. exact Hb.
+    - unfold vrend. rewrite vplain_apply_raw, core_apply_raw_nonscalar by exact I. exact Hb.
   Qed.
 End Render.
+
+Lemma value_f_render s n : vrender_at s (value_f n).
+Proof.
+  induction n as [|n IH]; [intros i v i' _ H; discriminate|].
+  change (value_f (S n)) with (value_step (value_f n)). apply value_step_render; [exact IH|apply (proj1 (value_f_all n))].
+Qed.
+
+(* C03 tiling for values *)
+Theorem value_render s i v i' : isrc s i -> value_ i = Ok v i' ->
+  exists t a o, vtext t a o /\ splits i t i' /\ isrc s i' /\ vrend s v o.
+Proof. apply value_f_render. Qed.
